@@ -173,7 +173,7 @@ def build(root, log_path):
     return rc == 0 and not to, out, dt
 
 
-CHECK_RE = re.compile(r"^Check (\d+): (\S+)\n\t - Status: (\w+)\n\t - Description: \"(.*)\"\n\t - Location: (.*)$", re.M)
+CHECK_RE = re.compile(r"^Check (\d+): ([^\n]+)\n\t - Status: (\w+)\n\t - Description: \"(.*?)\"\n\t - Location: ([^\n]*)$", re.M | re.S)
 
 
 def parse_kani(out):
@@ -248,7 +248,7 @@ def run_harness(root, h, logdir):
         res["outcome"] = "inconclusive"; res["why"] = f"timeout after {h.timeout}s"
     elif verdict is None:
         why = "no verdict"
-        if "Solver ran out of memory" in out or "Status: ERROR" in out or "out of memory" in out.lower() or "std::bad_alloc" in out:
+        if "Solver ran out of memory" in out or "Out of memory" in out or "CBMC failed with status" in out or "Status: ERROR" in out or "out of memory" in out.lower() or "std::bad_alloc" in out:
             why = "CBMC error / out of memory"
         elif "error: internal compiler error" in out or "Kani unexpectedly panicked" in out:
             why = "Kani internal error"
@@ -264,7 +264,24 @@ def run_harness(root, h, logdir):
         if h.kind == "bounded_termination":
             real_fail = real_fail + unwind_fail
             unwind_fail = []
-        if h.kind == "should_fail":
+        if h.kind == "must_panic":
+            # every path must end in the crate's own panic `expect`; nothing else may fail,
+            # and the code after the call must be unreachable
+            exp = h.meta.get("expect", "").replace("+", " ")
+            expected = [c for c in real_fail if exp and exp in c["desc"]]
+            other = [c for c in real_fail if c not in expected]
+            if other:
+                res["outcome"] = "fail"
+                res["why"] = "; ".join(sorted(set(c["desc"] for c in other))[:5])
+                res["mem_only"] = all(mem_class(c["desc"]) for c in other)
+            elif incl_fail or unwind_fail:
+                res["outcome"] = "inconclusive"; res["why"] = "unsupported construct / unwinding"
+            elif not expected:
+                res["outcome"] = "fail"; res["why"] = f"expected panic '{exp}' is not reachable (the call returned or panics differently)"
+                res["mem_only"] = False
+            else:
+                res["outcome"] = "pass"
+        elif h.kind == "should_fail":
             # vacuity / sensitivity twin: must come back violated
             if real_fail:
                 res["outcome"] = "pass"
